@@ -68,7 +68,12 @@ class Assembler:
                 if mode == 'rel':
                     # relative branch
                     absolute = int(''.join(operands), 16)
-                    relative = (absolute - pc) - 2
+                    relative = (absolute - pc - 2) & self._mpu.addrMask
+                    if relative > (self._mpu.addrMask >> 1):
+                        relative -= self._mpu.addrMask + 1  # backward
+                    limit = (self._mpu.byteMask + 1) >> 1
+                    if (relative < -limit) or (relative >= limit):
+                        raise OverflowError
                     relative = relative & self._mpu.byteMask
                     operands = [(self._mpu.BYTE_FORMAT % relative)]
 
